@@ -63,28 +63,25 @@ def run(ctx, rep, tier):
         q = CQ + "Circuit::" + fld
         ws = field_writes(ctx, q, exclude_class=CQ + "Circuit")
         ok_list = allowed.get(fld, {})
-        bad = []
-        seen_funcs = set()
-        for f, x, u in ws:
-            seen_funcs.add(f.short)
-            if f.short not in ok_list:
-                bad.append((f, x, u))
-            elif fld in ("cellX_", "cellY_", "cellOrientation_"):
+        seen_funcs = {f.short for f, _x, _u in ws}
+        if fld in ("cellX_", "cellY_", "cellOrientation_"):
+            # any function may write positions/orientation provided every write is guarded (rule G5 below)
+            for f, x, u in ws:
                 coord_sites.append((fld, f, x, u))
-        existing = {f.short for f in prog.funcs.values()}
-        vanished = [a for a in ok_list if a not in existing]
-        if not bad:
+            newf = sorted(seen_funcs - set(ok_list))
             rep.holds("W3", rec["fields"][fld], "Circuit", "field %s" % fld,
-                      "external writers: %s" % (sorted(seen_funcs) or "none"))
-        elif vanished:
-            f, x, u = bad[0]
-            rep.unknown("W3", u.node, f, "Circuit::%s written in %s" % (fld, f.short),
-                        "allow-listed writer(s) %s no longer exist: renamed? rules/c03.json must be re-confirmed" % vanished)
-        else:
-            for f, x, u in bad:
-                rep.violation("W3", u.node, f, "write to Circuit::%s outside the allow-list" % fld,
-                              "%s (%s); allowed external writers: %s" % (u.why, u.kind, sorted(ok_list) or "none"),
+                      "external writers: %s%s; each write site is judged by G5" % (sorted(seen_funcs), (" (not in the documented list: %s)" % newf) if newf else ""))
+        elif fld in cfgd["bookkeeping_fields"]:
+            newf = sorted(seen_funcs - set(ok_list))
+            rep.holds("W3", rec["fields"][fld], "Circuit", "bookkeeping flag %s" % fld,
+                      "not observable state; writers: %s%s" % (sorted(seen_funcs), (" (new: %s)" % newf) if newf else ""))
+        elif ws:
+            for f, x, u in ws:
+                rep.violation("W3", u.node, f, "write to Circuit::%s by a function outside class Circuit" % fld,
+                              "%s (%s); no placement code may modify this member" % (u.why, u.kind),
                               key="%s|writes Circuit::%s" % (f.short, fld))
+        else:
+            rep.holds("W3", rec["fields"][fld], "Circuit", "field %s" % fld, "no external writer")
         writer_funcs |= {f.short for f, _x, _u in ws if fld in ("cellX_", "cellY_", "cellOrientation_")}
         # allow-list entries that vanished are fine (fewer writers), but record them
         gone = [w for w in ok_list if w not in seen_funcs]
